@@ -23,7 +23,7 @@ def check(pid, category, text, note, technique, design_ref):
     }
 
 
-TRUSTED = ("Trusted: the simulator and independent packet builder/decoder in harness/vh/src (router behaviour, ground-truth labels), "
+TRUSTED = ("The model is bound to the code by strict conformance (spec/conf/ConfLoop.tla: every hook-logged TracerState projection of every validated execution equals what the TracerOps operators compute); a conformance rejection is reported as MODEL-DRIFT, not as a violation. Trusted: the simulator and independent packet builder/decoder in harness/vh/src (router behaviour, ground-truth labels), "
            "TLC, the virtual clock interposition; Linux socket semantics only.")
 
 exec(open(os.path.join(VERIF, "lib", "manifest_table.py")).read())
